@@ -54,3 +54,9 @@ def run(ctx):
     # ---- R07.8 to_wait() tickets: NextEnding resolves at once whenever nothing runs (effect table owned by C09)
     ctx.rule("R07.8", "a to_wait() ticket is either resolved immediately (nothing running) or queued for the process end - never queued with nothing to end")
     ctx.borrow("C09", ["R09.1"], "R07.8", "documented effect of every control in every state class", keys=["NextEnding"])
+
+    ctx.rule("R07.9", "a control taken from its queue is not lost: PriorityReceiver::recv has no suspension point between receiving and returning it (shared with R10.7)")
+    try:
+        jobrules.recv_cancel_safe(ctx, "R07.9")
+    except Skip:
+        pass
